@@ -253,8 +253,7 @@ def body(run: Run, replay):
 
     # ---- state-machine histories
     hists = res.tagged("HIST")
-    if quick:
-        hists = [h for i, h in enumerate(hists) if i % 4 == 0]
+    hists = [h for i, h in enumerate(hists) if i % (4 if quick else 6) == 0]
     dlook = {json.dumps(x[0], sort_keys=True): x for x in res.tagged("DESC")}
     for d, hist, order, uexp, defect, m6 in hists:
         _d, gtab, m60, m6b, m6i = dlook[json.dumps(d, sort_keys=True)]
@@ -340,7 +339,8 @@ def body(run: Run, replay):
         elif defect == "geometry":
             B = out.bset
             dev = np.abs(out.rbs[B] - out.rbg).max()
-            if not dev > 0.3 * abs(moved) * (LCONV_M2E ** (uexp - e_before if pending_conv else 0)):
+            moved = 0.5 * LCONV_M2E ** uexp          # the 0.5-unit move expressed in the FINAL units (the table is converted after it)
+            if not dev > 0.3 * moved:
                 run.violation("inconsistent geometry (grid moved by %.3g in the USET table): stiffness- and geometry-based rigid-body modes differ by only %.3g" % (moved, dev),
                               {"desc": d}, dict(tags, clause="geometry"))
         # inverses: undoing every reorder / convert of the history with the stand-alone functions returns the original matrices
